@@ -1,5 +1,6 @@
 import Bptk.Core.C01
 import Bptk.Props.C02
+import Bptk.Props.C05
 /-!
 C01 — SD-DSL simulation equals the explicit-Euler solution of the difference equations.
 
@@ -342,6 +343,11 @@ def specPy01 : String → Option Py
   -- interval 3.0, dt 1.0; wave amplitude H0, period H1
   | "Delay" => some (.ite (memoCall "__h0__" (.bin .sub (.name "t") (.num "3.0")))
       (.bin .ge (.bin .sub (.name "t") (.num "3.0")) (.num "0.0")) (.num "1.5"))
+  -- delay whose duration and initial value are model ELEMENTS (read at the start time): the input at `t - duration`
+  -- when that is not before the start, the initial value otherwise
+  | "Delay[element]" =>
+      let d : Py := .bin .sub (.name "t") (memoCall "__h1__" (.num "0.0"))
+      some (.ite (memoCall "__h0__" d) (.bin .ge d (.num "0.0")) (memoCall "__h2__" (.num "0.0")))
   | "Pulse[first]" =>
       let d : Py := .bin .sub (.name "t") (.num "2.0")
       some (.ite (.bin .div h0 (.num "1.0"))
@@ -447,34 +453,6 @@ theorem interp_later (x0 y0 x1 y1 : Rat) (rest : List (Rat × Rat)) (x : Rat) (h
     interp ((x0, y0) :: (x1, y1) :: rest) x = interp ((x1, y1) :: rest) x := by
   simp [interp, h1]
 
-/-- **C01 at full strength** for the operator tables `Tt` (probed at `t`) and `Tdt` (probed at
-`t - model.dt`): for every equation tree, every element kind, every solution and every step. -/
-def C01_full (Tt Tdt : Table) : Prop :=
-  -- (syntax) every equation tree, at either time, is emitted as text that parses to operands-as-units
-  (∀ e : E, E.ok Tt L e = true → Parses (render Tt e) (denote Tt e)) ∧
-  (∀ e : E, E.ok Tdt L e = true → Parses (render Tdt e) (denote Tdt e)) ∧
-  -- (time threading) the tree rendered at t - dt is the tree rendered at t, shifted
-  (∀ e : E, E.ok Tt 0 e = true → erase (denote Tdt (shiftE e)) = substT (erase (denote Tt e))) ∧
-  -- (semantics) solutions of the function strings solve the difference equations
-  (∀ (α : Type) (C : TC α), GridOK C → ∀ (W : String → Nat → α) (ρ : Nat → α),
-    (∀ n init eq, (∀ k, W n k = evalM C W ρ k (stockSkel n init eq)) →
-        W n 0 = evalM C W ρ 0 init ∧
-        ∀ k, W n (k + 1) = C.bin .add (W n k) (C.bin .mul C.dt (evalM C W ρ (k + 1) eq))) ∧
-    (∀ n eq, (∀ k, W n k = evalM C W ρ k (flowSkel eq)) →
-        ∀ k, W n k = C.call (C.name "max") [C.num "0", evalM C W ρ k eq]) ∧
-    (∀ k s, C.bin .sub (C.time (k + 1)) C.dt = C.time k →
-        evalM C W ρ (k + 1) (substT s) = evalM C W ρ k s))
-
-theorem C01_full_of_tables (Tt Tdt : Table) (h1 : tableOK L Tt = true) (h2 : tableOK L Tdt = true)
-    (h3 : shiftOK Tt Tdt = true) : C01_full Tt Tdt := by
-  refine ⟨fun e he => render_parses L (by decide) Tt h1 e he,
-    fun e he => render_parses L (by decide) Tdt h2 e he,
-    fun e he => denote_shift Tt Tdt h3 e he, ?_⟩
-  intro α C hG W ρ
-  exact ⟨fun n init eq hW => stock_euler C hG W ρ n init eq _ rfl hW,
-    fun n eq hW => flow_clamped C W ρ n eq _ rfl hW,
-    fun k s hx => evalM_shift C W ρ k hx s⟩
-
 /-- Negation witness for the pinned tree's `number * element` template (`(H1) * (H0)` rendered with
 the number operand at the default time): the shape asked for at `t - model.dt` still reads the
 element at `t`, so `shiftOK` is false. -/
@@ -514,6 +492,818 @@ example : GridOK demoC := by
   · intro k; simp [demoC]
   · intro k; simp [demoC]
 
+/-! ## Wave 3 (1): `GridOK` derived from C05's theorems on decimal grids -/
+
+section c05
+open Bptk.C05 (Fl Grid Budget label normalize memoKey label_lt label_zero route_independent back_label)
+
+/-- `GridOK` on a horizon of `N` steps (C05's error budget is per horizon) -/
+structure GridOKN (C : TC α) (N : Nat) : Prop where
+  start0 : ∀ k, k ≤ N → C.truthy (C.bin .le (C.time k) C.start) = decide (k = 0)
+  idxPred : ∀ k, k + 1 ≤ N → C.idx (C.bin .sub (C.time (k + 1)) C.dt) = some k
+  idxNow : ∀ k, k ≤ N → C.idx (C.time k) = some k
+
+theorem GridOK.toN {C : TC α} (h : GridOK C) (N : Nat) : GridOKN C N :=
+  ⟨fun k _ => h.start0 k, fun k _ => h.idxPred k, fun k _ => h.idxNow k⟩
+
+theorem stock_eulerN (C : TC α) (N : Nat) (hG : GridOKN C N) (W : String → Nat → α) (ρ : Nat → α)
+    (n : String) (init eq body : Py) (hb : body = stockSkel n init eq)
+    (hW : ∀ k, k ≤ N → W n k = evalM C W ρ k body) :
+    W n 0 = evalM C W ρ 0 init ∧
+    ∀ k, k + 1 ≤ N → W n (k + 1) = C.bin .add (W n k) (C.bin .mul C.dt (evalM C W ρ (k + 1) eq)) := by
+  subst hb
+  constructor
+  · rw [hW 0 (Nat.zero_le _)]
+    simp [stockSkel, evalM, isModel, modelAttr, hG.start0 0 (Nat.zero_le _)]
+  · intro k hk
+    rw [hW (k + 1) hk]
+    simp [stockSkel, memoCall, tMinusDt, evalM, evalML, isModel, isMemoize, strArg, modelAttr,
+      hG.start0 (k + 1) hk, hG.idxPred k hk]
+
+/-- the grid index `Model.memoize`'s normalisation assigns to a float time value `x`: the `k ≤ N` whose
+label `normalize(x, dt, start, precision)` is -/
+def idxOf (F : Fl) (G : Grid) (N : ℕ) (x : ℚ) : Option ℕ :=
+  (List.range (N + 1)).find? fun k => decide (normalize F.fl x (G.h F) (G.s F) G.p = label F G (k : ℤ))
+
+theorem idxOf_eq (F : Fl) (G : Grid) (N : ℕ) (r : ℚ) (B : Budget F G N r) (x : ℚ) (k : ℕ) (hk : k ≤ N)
+    (h : normalize F.fl x (G.h F) (G.s F) G.p = label F G (k : ℤ)) : idxOf F G N x = some k := by
+  unfold idxOf
+  rw [List.find?_range_eq_some]
+  refine ⟨by simpa using h, by simp; omega, ?_⟩
+  intro j hj
+  have := label_lt F G N r B j k hj hk
+  simp only [h, Bool.not_eq_eq_eq_not, Bool.not_true, decide_eq_false_iff_not]
+  exact fun e => absurd e.symm (ne_of_lt this)
+
+/-- C01's carrier with its time part interpreted by C05's float model: time values are embedded by `num`,
+`t` at index k is the label, `t - model.dt` is the rounded subtraction, `t <= model.starttime` the
+comparison of the floats, `idx` the index `normalize` assigns. -/
+structure FloatTime (C : TC α) (F : Fl) (G : Grid) (N : ℕ) (num : ℚ → α) : Prop where
+  time : ∀ k, C.time k = num (label F G (k : ℤ))
+  dt : C.dt = num (G.h F)
+  start : C.start = num (G.s F)
+  sub : ∀ a b, C.bin .sub (num a) (num b) = num (F.fl (a - b))
+  le : ∀ a b, C.truthy (C.bin .le (num a) (num b)) = decide (a ≤ b)
+  idx : ∀ x, C.idx (num x) = idxOf F G N x
+
+theorem label_near (F : Fl) (G : Grid) (N : ℕ) (r : ℚ) (B : Budget F G N r) (k : ℕ) (hk : k ≤ N) :
+    |label F G (k : ℤ) - G.g (k : ℤ)| ≤ r := by
+  have e0 := F.u_nonneg
+  have hH := G.H_pos
+  have hM := G.g_abs_le N k hk
+  have hM0 : 0 ≤ G.M N := le_trans (abs_nonneg _) hM
+  have hh := B.h_pos
+  have l1 : |label F G (k : ℤ) - G.g (k : ℤ)| ≤ F.u * |G.g (k : ℤ)| := F.err _
+  have y7 : F.u * |G.g (k : ℤ)| ≤ F.u * G.M N := mul_le_mul_of_nonneg_left hM e0
+  have := B.hR
+  have h1 : 0 ≤ F.u * ((1 + F.u) * G.M N + G.h F) := by positivity
+  have h2 : 0 ≤ F.u * G.H := by positivity
+  linarith
+
+/-- **GridOK from C05's theorems** (`route_independent` = `normalize_near` on the horizon, `back_label`,
+`label_lt`): nothing about the time grid is assumed beyond C05's explicit error `Budget`. -/
+theorem gridOKN_of_C05 (C : TC α) (F : Fl) (G : Grid) (N : ℕ) (r : ℚ) (num : ℚ → α)
+    (FT : FloatTime C F G N num) (B : Budget F G N r) : GridOKN C N := by
+  have h0 : label F G ((0 : ℕ) : ℤ) = G.s F := by simpa using label_zero F G
+  refine ⟨?_, ?_, ?_⟩
+  · intro k hk
+    rw [FT.time, FT.start, FT.le]
+    cases k with
+    | zero =>
+      have : label F G ((0 : ℕ) : ℤ) ≤ G.s F := le_of_eq h0
+      simpa using this
+    | succ k =>
+      have := label_lt F G N r B 0 (k + 1) (by omega) hk
+      rw [h0] at this
+      have h2 : ¬ label F G ((k + 1 : ℕ) : ℤ) ≤ G.s F := not_le.mpr this
+      simpa using h2
+  · intro k hk
+    rw [FT.time, FT.dt, FT.sub, FT.idx]
+    exact idxOf_eq F G N r B _ k (by omega) (back_label F G N r B k hk)
+  · intro k hk
+    rw [FT.time, FT.idx]
+    exact idxOf_eq F G N r B _ k hk
+      (route_independent F G N r B k hk _ _ (label_near F G N r B k hk) (label_near F G N r B k hk)).1
+
+/-- **Explicit Euler without grid hypotheses**: on every decimal grid within C05's budget -/
+theorem stock_euler_C05 (C : TC α) (F : Fl) (G : Grid) (N : ℕ) (r : ℚ) (num : ℚ → α)
+    (FT : FloatTime C F G N num) (B : Budget F G N r)
+    (W : String → Nat → α) (ρ : Nat → α) (n : String) (init eq : Py)
+    (hW : ∀ k, k ≤ N → W n k = evalM C W ρ k (stockSkel n init eq)) :
+    W n 0 = evalM C W ρ 0 init ∧
+    ∀ k, k + 1 ≤ N → W n (k + 1) = C.bin .add (W n k) (C.bin .mul C.dt (evalM C W ρ (k + 1) eq)) :=
+  stock_eulerN C N (gridOKN_of_C05 C F G N r num FT B) W ρ n init eq _ rfl hW
+end c05
+
+/-! ## Wave 3 (2): existence and uniqueness of the solution of an acyclic model -/
+
+/-- `Wq` provides at least the values `Wp` provides -/
+def leW (Wp Wq : String → Nat → Option α) : Prop := ∀ m j a, Wp m j = some a → Wq m j = some a
+
+theorem callO_mono (C : TC α) (f g : Option α) (vs : List α) (v : α) (h : ∀ a, f = some a → g = some a)
+    (hv : callO C f vs = some v) : callO C g vs = some v := by
+  cases f with
+  | none => simp [callO] at hv
+  | some a => rw [h a rfl]; exact hv
+
+mutual
+theorem evalO_mono (C : TC α) (Wp Wq : String → Nat → Option α) (h : leW Wp Wq) (ρ : Nat → α) (k : Nat)
+    (e : Py) (v : α) (hv : evalO C Wp ρ k e = some v) : evalO C Wq ρ k e = some v := by
+  match e with
+  | .num _ => simpa [evalO] using hv
+  | .name _ => simpa [evalO] using hv
+  | .str _ => simpa [evalO] using hv
+  | .hole _ => simpa [evalO] using hv
+  | .paren e => simp only [evalO] at hv ⊢; exact evalO_mono C Wp Wq h ρ k e v hv
+  | .neg e =>
+    have ih := evalO_mono C Wp Wq h ρ k e
+    simp only [evalO] at hv ⊢
+    split at hv
+    · rename_i a ha; rw [ih a ha]; exact hv
+    · simp at hv
+  | .not e =>
+    have ih := evalO_mono C Wp Wq h ρ k e
+    simp only [evalO] at hv ⊢
+    split at hv
+    · rename_i a ha; rw [ih a ha]; exact hv
+    · simp at hv
+  | .kw n e =>
+    have ih := evalO_mono C Wp Wq h ρ k e
+    simp only [evalO] at hv ⊢
+    split at hv
+    · rename_i a ha; rw [ih a ha]; exact hv
+    · simp at hv
+  | .list es =>
+    have ih := evalOL_mono C Wp Wq h ρ k es
+    simp only [evalO] at hv ⊢
+    split at hv
+    · rename_i a ha; rw [ih a ha]; exact hv
+    · simp at hv
+  | .bin op l r =>
+    have ihl := evalO_mono C Wp Wq h ρ k l
+    have ihr := evalO_mono C Wp Wq h ρ k r
+    simp only [evalO] at hv ⊢
+    split at hv
+    · rename_i a b ha hb
+      rw [ihl a ha, ihr b hb]; exact hv
+    · simp at hv
+  | .index l r =>
+    have ihl := evalO_mono C Wp Wq h ρ k l
+    have ihr := evalO_mono C Wp Wq h ρ k r
+    simp only [evalO] at hv ⊢
+    split at hv
+    · rename_i a b ha hb
+      rw [ihl a ha, ihr b hb]; exact hv
+    · simp at hv
+  | .ite x c y =>
+    have ihx := evalO_mono C Wp Wq h ρ k x
+    have ihc := evalO_mono C Wp Wq h ρ k c
+    have ihy := evalO_mono C Wp Wq h ρ k y
+    simp only [evalO] at hv ⊢
+    split at hv
+    · rename_i cv hc
+      rw [ihc cv hc]
+      by_cases ht : C.truthy cv = true
+      · simp only [ht, if_true] at hv ⊢; exact ihx v hv
+      · simp only [ht] at hv ⊢; exact ihy v hv
+    · simp at hv
+  | .attr e a =>
+    have ih := evalO_mono C Wp Wq h ρ k e
+    simp only [evalO] at hv ⊢
+    by_cases hm : isModel e = true
+    · simpa [hm] using hv
+    · rw [if_neg hm] at hv ⊢
+      split at hv
+      · rename_i b hb; rw [ih b hb]; exact hv
+      · simp at hv
+  | .call f args =>
+    have ihf := evalO_mono C Wp Wq h ρ k f
+    have iha := evalOL_mono C Wp Wq h ρ k args
+    simp only [evalO] at hv ⊢
+    split at hv
+    · simp at hv
+    · rename_i vs hvs
+      rw [iha vs hvs]
+      dsimp only
+      by_cases hm : isMemoize f = true
+      · simp only [hm, if_true] at hv ⊢
+        split at hv
+        · rename_i n x tv hn
+          split at hv
+          · exact h n _ v hv
+          · exact hv
+        · exact callO_mono C _ _ _ v ihf hv
+      · rw [if_neg hm] at hv ⊢
+        exact callO_mono C _ _ _ v ihf hv
+theorem evalOL_mono (C : TC α) (Wp Wq : String → Nat → Option α) (h : leW Wp Wq) (ρ : Nat → α) (k : Nat)
+    (es : List Py) (vs : List α) (hv : evalOL C Wp ρ k es = some vs) : evalOL C Wq ρ k es = some vs := by
+  match es with
+  | [] => simpa [evalOL] using hv
+  | e :: es =>
+    have ih1 := evalO_mono C Wp Wq h ρ k e
+    have ih2 := evalOL_mono C Wp Wq h ρ k es
+    simp only [evalOL] at hv ⊢
+    split at hv
+    · rename_i a b ha hb
+      rw [ih1 a ha, ih2 b hb]; exact hv
+    · simp at hv
+end
+
+/-- a total valuation seen as a partial one -/
+def totalW (W : String → Nat → α) : String → Nat → Option α := fun m j => some (W m j)
+
+mutual
+/-- over a total valuation the instrumented evaluator is `evalM` -/
+theorem evalO_total (C : TC α) (W : String → Nat → α) (ρ : Nat → α) (k : Nat) (e : Py) :
+    evalO C (totalW W) ρ k e = some (evalM C W ρ k e) := by
+  match e with
+  | .num _ => simp [evalO, evalM]
+  | .name _ => simp [evalO, evalM]
+  | .str _ => simp [evalO, evalM]
+  | .hole _ => simp [evalO, evalM]
+  | .paren e => simp [evalO, evalM, evalO_total C W ρ k e]
+  | .neg e => simp [evalO, evalM, evalO_total C W ρ k e]
+  | .not e => simp [evalO, evalM, evalO_total C W ρ k e]
+  | .kw n e => simp [evalO, evalM, evalO_total C W ρ k e]
+  | .list es => simp [evalO, evalM, evalOL_total C W ρ k es]
+  | .bin op l r => simp [evalO, evalM, evalO_total C W ρ k l, evalO_total C W ρ k r]
+  | .index l r => simp [evalO, evalM, evalO_total C W ρ k l, evalO_total C W ρ k r]
+  | .ite x c y =>
+    simp only [evalO, evalM, evalO_total C W ρ k x, evalO_total C W ρ k c, evalO_total C W ρ k y]
+    split <;> rfl
+  | .attr e a =>
+    simp only [evalO, evalM, evalO_total C W ρ k e]
+    split <;> rfl
+  | .call f args =>
+    simp only [evalO, evalM, evalO_total C W ρ k f, evalOL_total C W ρ k args, callO]
+    by_cases hm : isMemoize f = true
+    · simp only [hm, if_true]
+      split
+      · split <;> simp_all [totalW]
+      · rename_i hno
+        first
+          | rfl
+          | (split
+             · rename_i n x tv hn hvs
+               exact (hno n x tv hn hvs).elim
+             · rfl)
+    · simp only [hm]; rfl
+theorem evalOL_total (C : TC α) (W : String → Nat → α) (ρ : Nat → α) (k : Nat) (es : List Py) :
+    evalOL C (totalW W) ρ k es = some (evalML C W ρ k es) := by
+  match es with
+  | [] => simp [evalOL, evalML]
+  | e :: es => simp [evalOL, evalML, evalO_total C W ρ k e, evalOL_total C W ρ k es]
+end
+
+/-- **soundness of the instrumented evaluator**: if the evaluation over a partial valuation succeeds, every
+total valuation extending it evaluates (by `evalM`) to the same value — the result depends only on the
+consulted values -/
+theorem evalO_sound (C : TC α) (Wp : String → Nat → Option α) (W : String → Nat → α) (ρ : Nat → α) (k : Nat)
+    (e : Py) (v : α) (h : ∀ m j a, Wp m j = some a → W m j = a) (hv : evalO C Wp ρ k e = some v) :
+    evalM C W ρ k e = v := by
+  have h2 := evalO_mono C Wp (totalW W) (fun m j a ha => by simp [totalW, h m j a ha]) ρ k e v hv
+  rw [evalO_total] at h2
+  exact Option.some.inj h2
+
+/-! #### the cache-free recursive evaluator -/
+
+theorem solveF_succ (C : TC α) (els : List (String × Py)) (ρ : Nat → α) :
+    ∀ fuel n k v, solveF C els ρ fuel n k = some v → solveF C els ρ (fuel + 1) n k = some v := by
+  intro fuel
+  induction fuel with
+  | zero => intro n k v h; simp [solveF] at h
+  | succ f ih =>
+    intro n k v h
+    rw [solveF] at h ⊢
+    cases hb : bodyOf els n with
+    | none => simp [hb] at h
+    | some body =>
+      simp only [hb] at h ⊢
+      exact evalO_mono C _ _ (fun m j a ha => ih m j a ha) ρ k body v h
+
+theorem solveF_mono (C : TC α) (els : List (String × Py)) (ρ : Nat → α) (f f' : Nat) (hf : f ≤ f')
+    (n : String) (k : Nat) (v : α) (h : solveF C els ρ f n k = some v) : solveF C els ρ f' n k = some v := by
+  induction hf with
+  | refl => exact h
+  | step _ ih => exact solveF_succ C els ρ _ n k v ih
+
+/-- the evaluator is deterministic across fuels -/
+theorem solveF_det (C : TC α) (els : List (String × Py)) (ρ : Nat → α) (f1 f2 : Nat) (n : String) (k : Nat)
+    (v1 v2 : α) (h1 : solveF C els ρ f1 n k = some v1) (h2 : solveF C els ρ f2 n k = some v2) : v1 = v2 := by
+  have a := solveF_mono C els ρ f1 (max f1 f2) (Nat.le_max_left _ _) n k v1 h1
+  have b := solveF_mono C els ρ f2 (max f1 f2) (Nat.le_max_right _ _) n k v2 h2
+  rw [a] at b; exact Option.some.inj b
+
+/-- `W` solves the model: every element's value at every index is what its function string evaluates to
+(the "solution equations"; what `Model.evaluate_equation` returns) -/
+def Sol (C : TC α) (els : List (String × Py)) (ρ : Nat → α) (W : String → Nat → α) : Prop :=
+  ∀ n body, bodyOf els n = some body → ∀ k, W n k = evalM C W ρ k body
+
+/-- the evaluator terminates everywhere on the model -/
+def Terminates (C : TC α) (els : List (String × Py)) (ρ : Nat → α) : Prop :=
+  ∀ n, (bodyOf els n).isSome → ∀ k, ∃ fuel v, solveF C els ρ fuel n k = some v
+
+/-- **every solution agrees with the recursive evaluator** wherever that terminates (no hypothesis) -/
+theorem sol_agrees_solveF (C : TC α) (els : List (String × Py)) (ρ : Nat → α) (W : String → Nat → α)
+    (hW : Sol C els ρ W) : ∀ fuel n k v, solveF C els ρ fuel n k = some v → W n k = v := by
+  intro fuel
+  induction fuel with
+  | zero => intro n k v h; simp [solveF] at h
+  | succ f ih =>
+    intro n k v h
+    rw [solveF] at h
+    cases hb : bodyOf els n with
+    | none => simp [hb] at h
+    | some body =>
+      simp only [hb] at h
+      rw [hW n body hb k]
+      exact evalO_sound C _ W ρ k body v (fun m j a ha => ih m j a ha) h
+
+/-- **existence**: when the evaluator terminates everywhere, its result function solves the model -/
+theorem solveF_solution (C : TC α) (els : List (String × Py)) (ρ : Nat → α) (W : String → Nat → α)
+    (hT : Terminates C els ρ)
+    (hW : ∀ fuel n k v, solveF C els ρ fuel n k = some v → W n k = v) : Sol C els ρ W := by
+  intro n body hb k
+  obtain ⟨fuel, v, h⟩ := hT n (by simp [hb]) k
+  cases fuel with
+  | zero => simp [solveF] at h
+  | succ f =>
+    have h0 := h
+    rw [solveF] at h
+    simp only [hb] at h
+    rw [hW (f + 1) n k v h0]
+    exact (evalO_sound C _ W ρ k body v (fun m j a ha => hW f m j a ha) h).symm
+
+/-- **uniqueness**: when the evaluator terminates everywhere, any two solutions agree on every element of
+the model at every index -/
+theorem solution_unique_of_terminates (C : TC α) (els : List (String × Py)) (ρ : Nat → α)
+    (hT : Terminates C els ρ) (W1 W2 : String → Nat → α) (h1 : Sol C els ρ W1) (h2 : Sol C els ρ W2) :
+    ∀ n, (bodyOf els n).isSome → ∀ k, W1 n k = W2 n k := by
+  intro n hn k
+  obtain ⟨fuel, v, h⟩ := hT n hn k
+  rw [sol_agrees_solveF C els ρ W1 h1 fuel n k v h, sol_agrees_solveF C els ρ W2 h2 fuel n k v h]
+
+/-- the result function of the evaluator (`d` where it does not terminate) -/
+noncomputable def solW (C : TC α) (els : List (String × Py)) (ρ : Nat → α) (d : α) (n : String) (k : Nat) : α :=
+  open Classical in
+  if h : ∃ fv : Nat × α, solveF C els ρ fv.1 n k = some fv.2 then (Classical.choose h).2 else d
+
+theorem solW_spec (C : TC α) (els : List (String × Py)) (ρ : Nat → α) (d : α) (fuel : Nat) (n : String)
+    (k : Nat) (v : α) (h : solveF C els ρ fuel n k = some v) : solW C els ρ d n k = v := by
+  have hex : ∃ fv : Nat × α, solveF C els ρ fv.1 n k = some fv.2 := ⟨(fuel, v), h⟩
+  unfold solW
+  rw [dif_pos hex]
+  exact solveF_det C els ρ _ _ n k _ _ (Classical.choose_spec hex) h
+
+/-! #### acyclic models -/
+
+/-- **acyclicity**, stated with the instrumented evaluator: there is a rank function such that evaluating
+the body of `n` at index `k` succeeds whatever the values are, when only values at earlier indices, or at
+the same index of elements of smaller rank, are provided — i.e. the evaluation never *consults* anything
+else (which values are consulted may depend on the values: conditionals, delays) -/
+def Acyclic (C : TC α) (els : List (String × Py)) (ρ : Nat → α) (rk : String → Nat) : Prop :=
+  ∀ n body, bodyOf els n = some body → ∀ k (W : String → Nat → α),
+    ∃ v, evalO C (restrictW els rk W n k) ρ k body = some v
+
+def maxRank (rk : String → Nat) : List (String × Py) → Nat
+  | [] => 0
+  | p :: ps => max (rk p.1) (maxRank rk ps)
+
+theorem rank_le_max (rk : String → Nat) (els : List (String × Py)) (n : String) (h : (bodyOf els n).isSome) :
+    rk n ≤ maxRank rk els := by
+  induction els with
+  | nil => simp [bodyOf, List.lookup] at h
+  | cons p ps ih =>
+    obtain ⟨m, b⟩ := p
+    simp only [bodyOf, List.lookup] at h ih
+    by_cases e : n == m
+    · have : n = m := by simpa using e
+      subst this; exact Nat.le_max_left _ _
+    · simp only [e] at h
+      have := ih h
+      simp only [maxRank]; omega
+
+/-- **an acyclic model terminates everywhere** (uniformly: one fuel serves all elements up to an index) -/
+theorem solve_terminates_upto (C : TC α) (els : List (String × Py)) (ρ : Nat → α) (rk : String → Nat)
+    (hA : Acyclic C els ρ rk) :
+    ∀ K, ∃ F, ∀ j, j < K → ∀ n, (bodyOf els n).isSome → ∃ v, solveF C els ρ F n j = some v := by
+  intro K
+  induction K with
+  | zero => exact ⟨0, fun j hj => absurd hj (Nat.not_lt_zero _)⟩
+  | succ K ihK =>
+    obtain ⟨F0, h0⟩ := ihK
+    have inner : ∀ r, ∃ F, F0 ≤ F ∧ ∀ n, (bodyOf els n).isSome → rk n < r → ∃ v, solveF C els ρ F n K = some v := by
+      intro r
+      induction r with
+      | zero => exact ⟨F0, Nat.le_refl _, fun n _ h => absurd h (Nat.not_lt_zero _)⟩
+      | succ r ihr =>
+        obtain ⟨F1, hF, h1⟩ := ihr
+        refine ⟨F1 + 1, by omega, ?_⟩
+        intro n hn hr
+        cases hb : bodyOf els n with
+        | none => simp [hb] at hn
+        | some body =>
+          let W : String → Nat → α := fun m j => (solveF C els ρ F1 m j).getD (C.num "")
+          obtain ⟨v, hv⟩ := hA n body hb K W
+          have hle : leW (restrictW els rk W n K) (solveF C els ρ F1) := by
+            intro m j a ha
+            unfold restrictW at ha
+            by_cases hal : allowed els rk n K m j = true
+            · rw [if_pos hal] at ha
+              have ha' : a = W m j := (Option.some.inj ha).symm
+              simp only [allowed, Bool.and_eq_true, Bool.or_eq_true, decide_eq_true_eq] at hal
+              obtain ⟨hm, hjk⟩ := hal
+              have : ∃ v', solveF C els ρ F1 m j = some v' := by
+                rcases hjk with hlt | ⟨hj, hrk⟩
+                · obtain ⟨v', hv'⟩ := h0 j hlt m hm
+                  exact ⟨v', solveF_mono C els ρ F0 F1 hF m j v' hv'⟩
+                · subst hj; exact h1 m hm (by omega)
+              obtain ⟨v', hv'⟩ := this
+              rw [ha', hv']; simp [W, hv']
+            · rw [if_neg hal] at ha; simp at ha
+          refine ⟨v, ?_⟩
+          rw [solveF]; simp only [hb]
+          exact evalO_mono C _ _ hle ρ K body v hv
+    obtain ⟨F, hF, hall⟩ := inner (maxRank rk els + 1)
+    refine ⟨F, ?_⟩
+    intro j hj n hn
+    by_cases hjK : j < K
+    · obtain ⟨v, hv⟩ := h0 j hjK n hn
+      exact ⟨v, solveF_mono C els ρ F0 F hF n j v hv⟩
+    · have : j = K := by omega
+      subst this
+      exact hall n hn (Nat.lt_succ_of_le (rank_le_max rk els n hn))
+
+theorem acyclic_terminates (C : TC α) (els : List (String × Py)) (ρ : Nat → α) (rk : String → Nat)
+    (hA : Acyclic C els ρ rk) : Terminates C els ρ := by
+  intro n hn k
+  obtain ⟨F, h⟩ := solve_terminates_upto C els ρ rk hA (k + 1)
+  obtain ⟨v, hv⟩ := h k (Nat.lt_succ_self k) n hn
+  exact ⟨F, v, hv⟩
+
+/-- THE solution of an acyclic model: the result function of the recursive evaluator -/
+noncomputable def theSol (C : TC α) (els : List (String × Py)) (ρ : Nat → α) : String → Nat → α :=
+  solW C els ρ (C.num "")
+
+/-- **existence and uniqueness for acyclic models**: `theSol` solves the model, it is what the cache-free
+recursive evaluation computes, and every solution coincides with it on the model's elements -/
+theorem acyclic_exists_unique (C : TC α) (els : List (String × Py)) (ρ : Nat → α) (rk : String → Nat)
+    (hA : Acyclic C els ρ rk) :
+    Sol C els ρ (theSol C els ρ) ∧
+    (∀ fuel n k v, solveF C els ρ fuel n k = some v → theSol C els ρ n k = v) ∧
+    (∀ W, Sol C els ρ W → ∀ n, (bodyOf els n).isSome → ∀ k, W n k = theSol C els ρ n k) := by
+  have hT := acyclic_terminates C els ρ rk hA
+  have hS : ∀ fuel n k v, solveF C els ρ fuel n k = some v → theSol C els ρ n k = v :=
+    fun fuel n k v h => solW_spec C els ρ _ fuel n k v h
+  have hsol := solveF_solution C els ρ _ hT hS
+  exact ⟨hsol, hS, fun W hW n hn k => solution_unique_of_terminates C els ρ hT W _ hW hsol n hn k⟩
+
+/-- **Euler for THE solution**: in an acyclic model, the value the simulation computes for a stock whose
+function string is the stock skeleton is the explicit-Euler recurrence over the (unique) solution -/
+theorem stock_euler_theSol (C : TC α) (hG : GridOK C) (els : List (String × Py)) (ρ : Nat → α)
+    (rk : String → Nat) (hA : Acyclic C els ρ rk) (n : String) (init eq : Py)
+    (hb : bodyOf els n = some (stockSkel n init eq)) :
+    theSol C els ρ n 0 = evalM C (theSol C els ρ) ρ 0 init ∧
+    ∀ k, theSol C els ρ n (k + 1) =
+      C.bin .add (theSol C els ρ n k) (C.bin .mul C.dt (evalM C (theSol C els ρ) ρ (k + 1) eq)) :=
+  stock_euler C hG _ ρ n init eq _ rfl ((acyclic_exists_unique C els ρ rk hA).1 n _ hb)
+
+theorem stock_euler_exact_theSol (C : TC α) (hG : GridOK C)
+    (hx : ∀ k, C.bin .sub (C.time (k + 1)) C.dt = C.time k) (els : List (String × Py)) (ρ : Nat → α)
+    (rk : String → Nat) (hA : Acyclic C els ρ rk) (n : String) (init eq : Py)
+    (hb : bodyOf els n = some (stockSkel n init (substT eq))) :
+    theSol C els ρ n 0 = evalM C (theSol C els ρ) ρ 0 init ∧
+    ∀ k, theSol C els ρ n (k + 1) =
+      C.bin .add (theSol C els ρ n k) (C.bin .mul C.dt (evalM C (theSol C els ρ) ρ k eq)) :=
+  stock_euler_exact C hG _ ρ hx n init eq _ rfl ((acyclic_exists_unique C els ρ rk hA).1 n _ hb)
+
+theorem flow_clamped_theSol (C : TC α) (els : List (String × Py)) (ρ : Nat → α)
+    (rk : String → Nat) (hA : Acyclic C els ρ rk) (n : String) (eq : Py)
+    (hb : bodyOf els n = some (flowSkel eq)) :
+    ∀ k, theSol C els ρ n k = C.call (C.name "max") [C.num "0", evalM C (theSol C els ρ) ρ k eq] :=
+  flow_clamped C _ ρ n eq _ rfl ((acyclic_exists_unique C els ρ rk hA).1 n _ hb)
+
+theorem converter_theSol (C : TC α) (els : List (String × Py)) (ρ : Nat → α)
+    (rk : String → Nat) (hA : Acyclic C els ρ rk) (n : String) (body : Py) (hb : bodyOf els n = some body) :
+    ∀ k, theSol C els ρ n k = evalM C (theSol C els ρ) ρ k body :=
+  (acyclic_exists_unique C els ρ rk hA).1 n _ hb
+
+/-- non-vacuity: a stock fed by a flow that reads the stock (a feedback loop through the stock — acyclic in
+the sense above, rank stock < rank flow) over the concrete carrier `demoC` -/
+def demoEls : List (String × Py) :=
+  [("s", stockSkel "s" (.num "1") (memoCall "f" tMinusDt)), ("f", flowSkel (memoCall "s" (.name "t")))]
+
+def demoRk (n : String) : Nat := if n = "s" then 0 else 1
+
+theorem demo_acyclic (ρ : Nat → Int) : Acyclic demoC demoEls ρ demoRk := by
+  intro n body hb k W
+  by_cases hs : n = "s"
+  · subst hs
+    have : body = stockSkel "s" (.num "1") (memoCall "f" tMinusDt) := by
+      simpa [bodyOf, demoEls, List.lookup] using hb.symm
+    subst this
+    cases k with
+    | zero => exact ⟨_, by simp [stockSkel, evalO, isModel, modelAttr, demoC]; rfl⟩
+    | succ k =>
+      refine ⟨W "s" k + 1 * W "f" k, ?_⟩
+      have hk : ¬ ((k : Int) < 0) := by omega
+      simp [hk, stockSkel, memoCall, tMinusDt, evalO, evalOL, isModel, isMemoize, strArg, modelAttr, demoC,
+        restrictW, allowed, bodyOf, demoEls, List.lookup]
+  · by_cases hf : n = "f"
+    · subst hf
+      have : body = flowSkel (memoCall "s" (.name "t")) := by
+        simpa [bodyOf, demoEls, List.lookup] using hb.symm
+      subst this
+      refine ⟨0, ?_⟩
+      have hk : ¬ ((k : Int) < 0) := by omega
+      simp [hk, flowSkel, memoCall, evalO, evalOL, isMemoize, strArg, demoC, restrictW, allowed, bodyOf, demoEls,
+        List.lookup, callO, demoRk]
+    · have e1 : (n == "s") = false := by simpa using hs
+      have e2 : (n == "f") = false := by simpa using hf
+      simp [bodyOf, demoEls, List.lookup, e1, e2] at hb
+
+
+/-! #### a decidable syntactic criterion for acyclicity -/
+
+theorem isT_eq (e : Py) (h : isT e = true) : e = .name "t" := by
+  cases e <;> simp_all [isT]
+
+theorem isTMinusDt_eq (e : Py) (h : isTMinusDt e = true) : e = tMinusDt := by
+  unfold isTMinusDt at h
+  split at h
+  · simp only [Bool.and_eq_true, beq_iff_eq] at h
+    obtain ⟨⟨rfl, rfl⟩, rfl⟩ := h
+    rfl
+  · simp at h
+
+theorem stockParts_eq (n : String) (body init eq : Py) (h : stockParts n body = some (init, eq)) :
+    body = stockSkel n init eq := by
+  unfold stockParts at h
+  split at h
+  · split at h
+    · rename_i hc
+      simp only [Bool.and_eq_true, beq_iff_eq] at hc
+      simp only [Option.some.injEq, Prod.mk.injEq] at h
+      obtain ⟨rfl, rfl⟩ := h
+      obtain ⟨⟨⟨⟨⟨⟨⟨⟨⟨⟨rfl, rfl⟩, rfl⟩, rfl⟩, rfl⟩, rfl⟩, rfl⟩, rfl⟩, rfl⟩, rfl⟩, rfl⟩ := hc
+      rfl
+    · simp at h
+  · simp at h
+mutual
+theorem evalO_defined (C : TC α) (hG : GridOK C) (Wp : String → Nat → Option α) (ρ : Nat → α) (k : Nat)
+    (now prev : String → Bool)
+    (hnow : ∀ m, now m = true → ∃ a, Wp m k = some a)
+    (hprev : ∀ m, prev m = true → ∃ j a, k = j + 1 ∧ Wp m j = some a)
+    (e : Py) (h : refsIn now prev e = true) : (evalO C Wp ρ k e).isSome = true := by
+  match e with
+  | .num _ => simp [evalO]
+  | .name _ => simp [evalO]
+  | .str _ => simp [evalO]
+  | .hole _ => simp [evalO]
+  | .paren e =>
+    simp only [refsIn] at h
+    obtain ⟨v, hv⟩ := Option.isSome_iff_exists.mp (evalO_defined C hG Wp ρ k now prev hnow hprev e h)
+    simp [evalO, hv]
+  | .neg e =>
+    simp only [refsIn] at h
+    obtain ⟨v, hv⟩ := Option.isSome_iff_exists.mp (evalO_defined C hG Wp ρ k now prev hnow hprev e h)
+    simp [evalO, hv]
+  | .not e =>
+    simp only [refsIn] at h
+    obtain ⟨v, hv⟩ := Option.isSome_iff_exists.mp (evalO_defined C hG Wp ρ k now prev hnow hprev e h)
+    simp [evalO, hv]
+  | .kw n e =>
+    simp only [refsIn] at h
+    obtain ⟨v, hv⟩ := Option.isSome_iff_exists.mp (evalO_defined C hG Wp ρ k now prev hnow hprev e h)
+    simp [evalO, hv]
+  | .bin op l r =>
+    simp only [refsIn, Bool.and_eq_true] at h
+    obtain ⟨a, ha⟩ := Option.isSome_iff_exists.mp (evalO_defined C hG Wp ρ k now prev hnow hprev l h.1)
+    obtain ⟨b, hb⟩ := Option.isSome_iff_exists.mp (evalO_defined C hG Wp ρ k now prev hnow hprev r h.2)
+    simp [evalO, ha, hb]
+  | .index l r =>
+    simp only [refsIn, Bool.and_eq_true] at h
+    obtain ⟨a, ha⟩ := Option.isSome_iff_exists.mp (evalO_defined C hG Wp ρ k now prev hnow hprev l h.1)
+    obtain ⟨b, hb⟩ := Option.isSome_iff_exists.mp (evalO_defined C hG Wp ρ k now prev hnow hprev r h.2)
+    simp [evalO, ha, hb]
+  | .ite x c y =>
+    simp only [refsIn, Bool.and_eq_true] at h
+    obtain ⟨a, ha⟩ := Option.isSome_iff_exists.mp (evalO_defined C hG Wp ρ k now prev hnow hprev x h.1.1)
+    obtain ⟨b, hb⟩ := Option.isSome_iff_exists.mp (evalO_defined C hG Wp ρ k now prev hnow hprev c h.1.2)
+    obtain ⟨d, hd⟩ := Option.isSome_iff_exists.mp (evalO_defined C hG Wp ρ k now prev hnow hprev y h.2)
+    by_cases ht : C.truthy b = true
+    · simp [evalO, hb, ht, ha]
+    · simp [evalO, hb, ht, hd]
+  | .attr e a =>
+    simp only [refsIn] at h
+    obtain ⟨v, hv⟩ := Option.isSome_iff_exists.mp (evalO_defined C hG Wp ρ k now prev hnow hprev e h)
+    by_cases hm : isModel e = true
+    · simp [evalO, hm]
+    · simp [evalO, hm, hv]
+  | .list es =>
+    simp only [refsIn] at h
+    obtain ⟨vs, hvs⟩ := Option.isSome_iff_exists.mp (evalOL_defined C hG Wp ρ k now prev hnow hprev es h)
+    simp [evalO, hvs]
+  | .call f args =>
+    simp only [refsIn] at h
+    by_cases hm : isMemoize f = true
+    · simp only [hm, if_true] at h
+      match args, h with
+      | [.str m, τ], h =>
+        simp only [Bool.or_eq_true, Bool.and_eq_true] at h
+        rcases h with ⟨ht, hn⟩ | ⟨ht, hp⟩
+        · have := isT_eq _ ht
+          subst this
+          obtain ⟨a, ha⟩ := hnow m hn
+          simp [evalO, evalOL, hm, strArg, hG.idxNow, ha]
+        · have := isTMinusDt_eq _ ht
+          subst this
+          obtain ⟨j, a, hk, ha⟩ := hprev m hp
+          subst hk
+          simp [evalO, evalOL, hm, strArg, tMinusDt, isModel, modelAttr, hG.idxPred, ha]
+    · rw [if_neg hm] at h
+      simp only [Bool.and_eq_true] at h
+      obtain ⟨fv, hf⟩ := Option.isSome_iff_exists.mp (evalO_defined C hG Wp ρ k now prev hnow hprev f h.1)
+      obtain ⟨vs, hvs⟩ := Option.isSome_iff_exists.mp (evalOL_defined C hG Wp ρ k now prev hnow hprev args h.2)
+      simp [evalO, hm, hvs, hf, callO]
+theorem evalOL_defined (C : TC α) (hG : GridOK C) (Wp : String → Nat → Option α) (ρ : Nat → α) (k : Nat)
+    (now prev : String → Bool)
+    (hnow : ∀ m, now m = true → ∃ a, Wp m k = some a)
+    (hprev : ∀ m, prev m = true → ∃ j a, k = j + 1 ∧ Wp m j = some a)
+    (es : List Py) (h : refsInL now prev es = true) : (evalOL C Wp ρ k es).isSome = true := by
+  match es with
+  | [] => simp [evalOL]
+  | e :: es =>
+    simp only [refsInL, Bool.and_eq_true] at h
+    obtain ⟨v, hv⟩ := Option.isSome_iff_exists.mp (evalO_defined C hG Wp ρ k now prev hnow hprev e h.1)
+    obtain ⟨vs, hvs⟩ := Option.isSome_iff_exists.mp (evalOL_defined C hG Wp ρ k now prev hnow hprev es h.2)
+    simp [evalOL, hv, hvs]
+end
+
+/-- element-wise syntactic criterion (Prop form of `elemOKb`) -/
+theorem elemOKb_consults (C : TC α) (hG : GridOK C) (els : List (String × Py)) (ρ : Nat → α) (rk : String → Nat)
+    (n : String) (body : Py) (h : elemOKb els rk n body = true) (k : Nat) (W : String → Nat → α) :
+    ∃ v, evalO C (restrictW els rk W n k) ρ k body = some v := by
+  apply Option.isSome_iff_exists.mp
+  have hnow : ∀ m, lowerNow els rk n m = true → ∃ a, restrictW els rk W n k m k = some a := by
+    intro m hm
+    simp only [lowerNow, Bool.and_eq_true, decide_eq_true_eq] at hm
+    exact ⟨W m k, by simp [restrictW, allowed, hm.1, hm.2]⟩
+  have hno : ∀ m, (fun _ : String => false) m = true → ∃ j a, k = j + 1 ∧ restrictW els rk W n k m j = some a := by
+    intro m hm; simp at hm
+  simp only [elemOKb, Bool.or_eq_true] at h
+  rcases h with h | h
+  · exact evalO_defined C hG _ ρ k _ _ hnow hno body h
+  · split at h
+    · rename_i init eq hsp
+      have hbody := stockParts_eq n body init eq hsp
+      subst hbody
+      simp only [Bool.and_eq_true] at h
+      obtain ⟨⟨hn, hi⟩, he⟩ := h
+      cases k with
+      | zero =>
+        have := evalO_defined C hG _ ρ 0 _ _ hnow hno init hi
+        simpa [stockSkel, evalO, isModel, modelAttr, hG.start0] using this
+      | succ j =>
+        have hprev : ∀ m, inModel els m = true → ∃ j' a, j + 1 = j' + 1 ∧ restrictW els rk W n (j + 1) m j' = some a := by
+          intro m hm
+          have hm' : (bodyOf els m).isSome = true := hm
+          exact ⟨j, W m j, rfl, by simp [restrictW, allowed, hm']⟩
+        have hnone : ∀ m, (fun _ : String => false) m = true → ∃ a, restrictW els rk W n (j + 1) m (j + 1) = some a := by
+          intro m hm; simp at hm
+        have h1 := Option.isSome_iff_exists.mp (evalO_defined C hG _ ρ (j + 1) _ _ hnone hprev eq he)
+        obtain ⟨ve, hve⟩ := h1
+        have hn' : (bodyOf els n).isSome = true := hn
+        have hself : restrictW els rk W n (j + 1) n j = some (W n j) := by
+          simp [restrictW, allowed, hn']
+        simp [stockSkel, memoCall, tMinusDt, evalO, evalOL, isModel, isMemoize, strArg, modelAttr, hG.start0,
+          hG.idxPred, hself, hve]
+    · simp at h
+
+theorem mem_of_bodyOf (els : List (String × Py)) (n : String) (body : Py) (h : bodyOf els n = some body) :
+    (n, body) ∈ els := by
+  induction els with
+  | nil => simp [bodyOf, List.lookup] at h
+  | cons p ps ih =>
+    obtain ⟨m, b⟩ := p
+    simp only [bodyOf, List.lookup] at h ih
+    by_cases e : n == m
+    · have : n = m := by simpa using e
+      subst this
+      simp only [e, Option.some.injEq] at h
+      subst h; simp
+    · simp only [e] at h
+      exact List.mem_cons_of_mem _ (ih h)
+
+/-- **a decidable sufficient condition for acyclicity**: when `modelOKb els rk` evaluates to `true` (the driver
+evaluates it on the real function strings of every generated model), the model is acyclic — hence it has exactly
+one solution, the one the recursive evaluation computes, and that solution is the explicit-Euler one -/
+theorem acyclic_of_modelOKb (C : TC α) (hG : GridOK C) (els : List (String × Py)) (ρ : Nat → α) (rk : String → Nat)
+    (h : modelOKb els rk = true) : Acyclic C els ρ rk := by
+  intro n body hb k W
+  unfold modelOKb at h
+  rw [List.all_eq_true] at h
+  exact elemOKb_consults C hG els ρ rk n body (h _ (mem_of_bodyOf els n body hb)) k W
+
+/-- non-vacuity: the feedback model of `demo_acyclic` passes the decidable criterion (kernel-evaluated) -/
+example : modelOKb demoEls demoRk = true := by decide +kernel
+
+/-- the decidable criterion gives the whole chain: unique solution, computed by the recursive evaluation,
+Euler recurrence for every stock of the model -/
+theorem euler_of_modelOKb (C : TC α) (hG : GridOK C) (els : List (String × Py)) (ρ : Nat → α) (rk : String → Nat)
+    (h : modelOKb els rk = true) (n : String) (init eq : Py) (hb : bodyOf els n = some (stockSkel n init eq)) :
+    (∀ W, Sol C els ρ W → ∀ m, (bodyOf els m).isSome → ∀ k, W m k = theSol C els ρ m k) ∧
+    theSol C els ρ n 0 = evalM C (theSol C els ρ) ρ 0 init ∧
+    ∀ k, theSol C els ρ n (k + 1) =
+      C.bin .add (theSol C els ρ n k) (C.bin .mul C.dt (evalM C (theSol C els ρ) ρ (k + 1) eq)) := by
+  have hA := acyclic_of_modelOKb C hG els ρ rk h
+  exact ⟨(acyclic_exists_unique C els ρ rk hA).2.2, stock_euler_theSol C hG els ρ rk hA n init eq hb⟩
+
+/-- **Euler for THE solution, without grid hypotheses**: acyclic model, float time on a decimal grid within
+C05's budget for `N` steps -/
+theorem stock_euler_theSol_C05 (C : TC α) (F : Bptk.C05.Fl) (G : Bptk.C05.Grid) (N : ℕ) (r : ℚ) (num : ℚ → α)
+    (FT : FloatTime C F G N num) (B : Bptk.C05.Budget F G N r)
+    (els : List (String × Py)) (ρ : Nat → α) (rk : String → Nat) (hA : Acyclic C els ρ rk)
+    (n : String) (init eq : Py) (hb : bodyOf els n = some (stockSkel n init eq)) :
+    theSol C els ρ n 0 = evalM C (theSol C els ρ) ρ 0 init ∧
+    ∀ k, k + 1 ≤ N → theSol C els ρ n (k + 1) =
+      C.bin .add (theSol C els ρ n k) (C.bin .mul C.dt (evalM C (theSol C els ρ) ρ (k + 1) eq)) :=
+  stock_euler_C05 C F G N r num FT B _ ρ n init eq
+    (fun k _ => (acyclic_exists_unique C els ρ rk hA).1 n _ hb k)
+
+/-- non-vacuity of `FloatTime`: a carrier over ℚ whose time part is C05's float model -/
+def ftCarrier (F : Bptk.C05.Fl) (G : Bptk.C05.Grid) (N : ℕ) : TC ℚ where
+  num := fun _ => 0
+  name := fun _ => 0
+  str := fun _ => 0
+  neg := fun x => -x
+  not := fun x => if x = 0 then 1 else 0
+  bin := fun op a b => match op with
+    | .add => a + b | .sub => F.fl (a - b) | .mul => a * b | .le => if a ≤ b then 1 else 0 | _ => 0
+  attr := fun _ _ => 0
+  call := fun _ _ => 0
+  index := fun _ _ => 0
+  list := fun _ => 0
+  kw := fun _ x => x
+  time := fun k => Bptk.C05.label F G (k : ℤ)
+  dt := G.h F
+  start := G.s F
+  stop := Bptk.C05.label F G (N : ℤ)
+  truthy := fun x => x != 0
+  idx := fun x => idxOf F G N x
+
+theorem ftCarrier_floatTime (F : Bptk.C05.Fl) (G : Bptk.C05.Grid) (N : ℕ) :
+    FloatTime (ftCarrier F G N) F G N id := by
+  refine ⟨fun _ => rfl, rfl, rfl, fun _ _ => rfl, ?_, fun _ => rfl⟩
+  intro a b
+  by_cases h : a ≤ b <;> simp [ftCarrier, h]
+
+/-- … with a genuinely inexact rounding (C05's counter-model `flW`, dt = 0.1, four steps) all hypotheses of
+`stock_euler_C05` hold -/
+example : GridOKN (ftCarrier Bptk.C05.flW Bptk.C05.G01 4) 4 :=
+  gridOKN_of_C05 _ Bptk.C05.flW Bptk.C05.G01 4 (1/500) id (ftCarrier_floatTime _ _ _) Bptk.C05.budget_W
+
+/-- **C01 at full strength** for the operator tables `Tt` (probed at `t`) and `Tdt` (probed at
+`t - model.dt`): for every equation tree, every element kind, every solution and every step. -/
+def C01_full (Tt Tdt : Table) : Prop :=
+  -- (syntax) every equation tree, at either time, is emitted as text that parses to operands-as-units
+  (∀ e : E, E.ok Tt L e = true → Parses (render Tt e) (denote Tt e)) ∧
+  (∀ e : E, E.ok Tdt L e = true → Parses (render Tdt e) (denote Tdt e)) ∧
+  -- (time threading) the tree rendered at t - dt is the tree rendered at t, shifted
+  (∀ e : E, E.ok Tt 0 e = true → erase (denote Tdt (shiftE e)) = substT (erase (denote Tt e))) ∧
+  -- (semantics) solutions of the function strings solve the difference equations
+  (∀ (α : Type) (C : TC α), GridOK C → ∀ (W : String → Nat → α) (ρ : Nat → α),
+    (∀ n init eq, (∀ k, W n k = evalM C W ρ k (stockSkel n init eq)) →
+        W n 0 = evalM C W ρ 0 init ∧
+        ∀ k, W n (k + 1) = C.bin .add (W n k) (C.bin .mul C.dt (evalM C W ρ (k + 1) eq))) ∧
+    (∀ n eq, (∀ k, W n k = evalM C W ρ k (flowSkel eq)) →
+        ∀ k, W n k = C.call (C.name "max") [C.num "0", evalM C W ρ k eq]) ∧
+    (∀ k s, C.bin .sub (C.time (k + 1)) C.dt = C.time k →
+        evalM C W ρ (k + 1) (substT s) = evalM C W ρ k s)) ∧
+  -- (wave 3, existence and uniqueness) an acyclic model has exactly one solution, the one the cache-free
+  -- recursive evaluation of the function strings computes
+  (∀ (α : Type) (C : TC α) (els : List (String × Py)) (ρ : Nat → α) (rk : String → Nat),
+    Acyclic C els ρ rk →
+      Sol C els ρ (theSol C els ρ) ∧
+      (∀ fuel n k v, solveF C els ρ fuel n k = some v → theSol C els ρ n k = v) ∧
+      (∀ W, Sol C els ρ W → ∀ n, (bodyOf els n).isSome → ∀ k, W n k = theSol C els ρ n k)) ∧
+  -- (wave 3, the grid hypotheses are C05's theorems) for float time on a decimal grid within C05's budget
+  (∀ (α : Type) (C : TC α) (F : Bptk.C05.Fl) (G : Bptk.C05.Grid) (N : ℕ) (r : ℚ) (num : ℚ → α),
+    FloatTime C F G N num → Bptk.C05.Budget F G N r → GridOKN C N)
+
+theorem C01_full_of_tables (Tt Tdt : Table) (h1 : tableOK L Tt = true) (h2 : tableOK L Tdt = true)
+    (h3 : shiftOK Tt Tdt = true) : C01_full Tt Tdt := by
+  refine ⟨fun e he => render_parses L (by decide) Tt h1 e he,
+    fun e he => render_parses L (by decide) Tdt h2 e he,
+    fun e he => denote_shift Tt Tdt h3 e he, ?_⟩
+  refine ⟨?_, fun α C els ρ rk hA => acyclic_exists_unique C els ρ rk hA,
+    fun α C F G N r num FT B => gridOKN_of_C05 C F G N r num FT B⟩
+  intro α C hG W ρ
+  exact ⟨fun n init eq hW => stock_euler C hG W ρ n init eq _ rfl hW,
+    fun n eq hW => flow_clamped C W ρ n eq _ rfl hW,
+    fun k s hx => evalM_shift C W ρ k hx s⟩
+
+
 #print axioms C01_full_of_tables
 #print axioms stock_euler_exact
 #print axioms denote_shift
@@ -523,5 +1313,22 @@ example : GridOK demoC := by
 #print axioms pulse_first_sem
 #print axioms C01_witness_time_dropped
 #print axioms lookup_segment
+
+#print axioms gridOKN_of_C05
+#print axioms stock_euler_C05
+#print axioms evalO_sound
+#print axioms sol_agrees_solveF
+#print axioms solveF_solution
+#print axioms solution_unique_of_terminates
+#print axioms acyclic_terminates
+#print axioms acyclic_exists_unique
+#print axioms stock_euler_theSol
+#print axioms stock_euler_exact_theSol
+#print axioms flow_clamped_theSol
+#print axioms demo_acyclic
+#print axioms acyclic_of_modelOKb
+#print axioms euler_of_modelOKb
+#print axioms stock_euler_theSol_C05
+#print axioms ftCarrier_floatTime
 
 end Bptk.C01
